@@ -185,21 +185,34 @@ class FakeZip:
         return self._infos
 
 
-def zipinfos(es):
+S_IFDIR_MODE = 0o040755 << 16
+ATTR_COMBOS = [(cs_, dos | unix) for cs_ in (0, 3) for dos in (0, 0x10) for unix in (0, S_IFDIR_MODE)]   # (create_system, external_attr)
+
+
+def combo_name(k: int) -> str:
+    cs_, ea = ATTR_COMBOS[k]
+    return f"sys{cs_}{'+dosdir' if ea & 0x10 else ''}{'+S_IFDIR' if ea >> 16 else ''}"
+
+
+def zipinfos(es, attrs=None):
+    """ZipInfo objects for (fs, cs, d) entries: d decides ONLY the trailing slash of the name; create_system and
+    external_attr run through all 8 combinations (DOS directory bit x unix S_IFDIR x system), independently of d."""
     out = []
     for i, (fs, cs, d) in enumerate(es):
         zi = zipfile.ZipInfo(f"d{i}/" if d else f"f{i}.bin")
         zi.file_size = fs
         zi.compress_size = cs
+        k = attrs[i] if attrs is not None else (i + fs + cs) % 8
+        zi.create_system, zi.external_attr = ATTR_COMBOS[k]
         out.append(zi)
     return out
 
 
-def impl_validate(zb, L, es) -> int:
+def impl_validate(zb, L, es, attrs=None) -> int:
     """0 = returned, 1 = ExtractionZipBombError, 2 = OverflowError, otherwise the exception name."""
     from sharepoint2text.parsing.exceptions import ExtractionZipBombError
     try:
-        r = zb.validate_zipfile(FakeZip(zipinfos(es)), limits=L, source="verif")
+        r = zb.validate_zipfile(FakeZip(zipinfos(es, attrs)), limits=L, source="verif")
         return 0 if r is None else "returned:" + repr(r)
     except ExtractionZipBombError:
         return 1
@@ -395,7 +408,7 @@ def central_records(data: bytes):
     return recs, (eocd, cd_off, cd_size, count)
 
 
-def forge(data: bytes, sizes: dict[int, tuple[int, int]], extra_dirs: int = 0) -> bytes:
+def forge(data: bytes, sizes: dict[int, tuple[int, int]], extra_dirs: int = 0, attrs: dict | None = None) -> bytes:
     """Rewrite (file_size, compress_size) of central-directory record i; optionally append `extra_dirs`
     directory records (offset 0) and fix the end-of-central-directory counts."""
     b = bytearray(data)
@@ -404,6 +417,10 @@ def forge(data: bytes, sizes: dict[int, tuple[int, int]], extra_dirs: int = 0) -
         p = recs[i][0]
         b[p + 20:p + 24] = struct.pack("<I", cs)
         b[p + 24:p + 28] = struct.pack("<I", fs)
+    for i, k in (attrs or {}).items():     # central record: create_system = high byte of "version made by", external_attr
+        p = recs[i][0]
+        b[p + 5] = ATTR_COMBOS[k][0]
+        b[p + 38:p + 42] = struct.pack("<I", ATTR_COMBOS[k][1])
     if extra_dirs:
         add = bytearray()
         for k in range(extra_dirs):
@@ -427,7 +444,8 @@ def zip_entries(data: bytes):
         return False, None, 0, 0
     p1 = bio.tell()
     try:
-        es = [(int(i.file_size), int(i.compress_size), bool(i.is_dir())) for i in zf.infolist()]
+        # directory = NAME ends with '/' (the model's name_is_dir; what zipfile inflates as a file otherwise)
+        es = [(int(i.file_size), int(i.compress_size), i.filename.endswith("/")) for i in zf.infolist()]
     except Exception:  # noqa
         es = None
     zf.close()
@@ -629,6 +647,12 @@ def forged_variants(data: bytes, default, thorough: bool):
     if N - len(recs) + 1 < 65000 - len(recs) and N >= len(recs):
         out.append(("count+0", forge(data, {}, extra_dirs=N - len(recs))))
         out.append(("count+1", forge(data, {}, extra_dirs=N - len(recs) + 1)))
+    # forged attributes: a FILE member (zipfile inflates it) marked as a directory must still be checked
+    for vn, k in (("attr-dosdir", 1 * 2), ("attr-unixdir", 4 + 1), ("attr-both", 4 + 2 + 1), ("attr-dosdir-sys3", 4 + 2)):
+        out.append((vn + "-bomb", forge(data, {f0: (ER * 7 + 1, 7)}, attrs={f0: k})))
+    out.append(("attr-all-files-dirbits-plain", forge(data, {}, attrs={i: 7 for i in files})))
+    out.append(("attr-dosdir-single+1", forge(data, {f0: (S + 1, S // ER + 2)}, attrs={f0: 2})) if S + 1 < 2 ** 32 else ("plain2", data))
+    out.append(("attr-dosdir-zero", forge(data, {f0: (1, 0)}, attrs={f0: 2})))
     # a directory entry with absurd sizes must be ignored
     out.append(("dir-absurd", forge(forge(data, {}, extra_dirs=1), {len(recs): (2 ** 32 - 2, 0)})))
     return out
@@ -773,6 +797,84 @@ def inventory(ctx):
                    not wired, "; ".join(wired) + f" (helpers: {dead})")
 
 
+# ============================================================================ what counts as a directory
+def directory_test(ctx, zb):
+    """The model decides "directory" from the NAME alone (Model.name_is_dir = endswith '/').  Tie:
+    (G) zipfile.ZipInfo.is_dir() of this Python is that test on every attribute combination (what is not a
+        directory is inflated as a file);
+    (D) zip_bomb._is_directory agrees on trailing slash x DOS bit 0x10 x unix S_IFDIR x create_system 0/3;
+    (X) the body of _is_directory reads nothing of the entry but is_dir / filename."""
+    bad_std, bad_impl = [], []
+    isdir = getattr(zb, "_is_directory", None)
+    for slash in (False, True):
+        for nm in ("a", "a/b.txt", "dir", "x.d", "\u00e9"):
+            for k in range(8):
+                zi = zipfile.ZipInfo(nm + ("/" if slash else ""))
+                zi.create_system, zi.external_attr = ATTR_COMBOS[k]
+                zi.file_size, zi.compress_size = 7, 3
+                want = zi.filename.endswith("/")
+                ctx.case(("is_dir", zi.filename, k), True, kind="directory-test")
+                if bool(zi.is_dir()) != want:
+                    bad_std.append((zi.filename, combo_name(k)))
+                if isdir is not None:
+                    try:
+                        got = bool(isdir(zi))
+                    except Exception as e:  # noqa
+                        got = type(e).__name__
+                    if got != want:
+                        bad_impl.append((zi.filename, combo_name(k), got))
+                        ctx.finding(f"directory-test:{'slash' if slash else 'noslash'}:{combo_name(k)}",
+                                    f"zip_bomb._is_directory({zi.filename!r}, create_system={zi.create_system}, external_attr="
+                                    f"{zi.external_attr:#x}) = {got}, but zipfile treats it as a "
+                                    f"{'directory' if want else 'FILE (it is inflated on read)'}: the guard "
+                                    f"{'checks a directory' if want else 'skips a file member'}",
+                                    {"filename": zi.filename, "create_system": zi.create_system,
+                                     "external_attr": zi.external_attr, "got": got, "want": want})
+    ctx.obligation("G:zipfile.ZipInfo.is_dir() == filename.endswith('/') on every attribute combination (model name_is_dir)",
+                   not bad_std, f"{bad_std[:5]}")
+    ctx.obligation("D:zip_bomb._is_directory == filename.endswith('/') on trailing slash x DOS bit x S_IFDIR x create_system",
+                   not bad_impl, f"{bad_impl[:5]}")
+    # X: attributes of the entry read by _is_directory
+    src = (common.REPO / "sharepoint2text/parsing/extractors/util/zip_bomb.py").read_text(encoding="utf-8")
+    tree = ast.parse(src)
+    fn = next((n for n in ast.walk(tree) if isinstance(n, ast.FunctionDef) and n.name == "_is_directory"), None)
+    if fn is None:
+        ctx.obligation("X:_is_directory reads only is_dir/filename of the entry", False, "function _is_directory not found")
+    else:
+        used = {n.attr for n in ast.walk(fn) if isinstance(n, ast.Attribute)}
+        used |= {n.args[1].value for n in ast.walk(fn) if isinstance(n, ast.Call) and call_name(n) == "getattr"
+                 and len(n.args) >= 2 and isinstance(n.args[1], ast.Constant)}
+        extra = sorted(used - {"is_dir", "filename", "endswith", "ZipInfo"})
+        ctx.obligation("X:_is_directory reads only is_dir/filename of the entry", not extra, f"also reads: {extra}")
+    # the loop of validate_zipfile skips an entry only through _is_directory
+    vf = next((n for n in ast.walk(tree) if isinstance(n, ast.FunctionDef) and n.name == "validate_zipfile"), None)
+    conts = []
+    if vf is not None:
+        for loop in [n for n in ast.walk(vf) if isinstance(n, ast.For)]:
+            for n in ast.walk(loop):
+                if isinstance(n, ast.If) and any(isinstance(x, ast.Continue) for b in n.body for x in ast.walk(b)):
+                    conts.append(ast.unparse(n.test))
+    ok_skip = vf is not None and all(c.replace(" ", "") == "_is_directory(info)" for c in conts) and len(conts) <= 1
+    ctx.obligation("X:validate_zipfile skips entries only by `if _is_directory(info): continue`", ok_skip, f"skip conditions: {conts}")
+
+
+def attr_probe_cases(zb):
+    """Family E: one probe entry per (per-entry clause, trailing slash, attribute combination) next to an innocent file.
+    -> (limit name, L, names, entries, attrs, clause, slash, k)"""
+    Z = zb.ZipBombLimits
+    sets = [("default", zb.DEFAULT_ZIP_BOMB_LIMITS), ("low", Z(3, 1000, 400, 10.0, 20.0)), ("frac500", Z(50_000, 2 ** 32, 2 ** 30, 200.5, 500.5))]
+    out = []
+    for name, L in sets:
+        S = L.max_single_uncompressed_bytes
+        ER = Fraction(L.max_entry_compression_ratio)
+        probes = {"single": (S + 1, S + 1), "zero": (1, 0), "entry-ratio": (int(math.floor(ER * 3)) + 1, 3)}
+        for clause, (fs, cs) in probes.items():
+            for slash in (False, True):
+                for k in range(8):
+                    out.append((name, L, [(2, 2, False), (fs, cs, slash)], [0, k], clause, slash, k))
+    return out
+
+
 # ============================================================================ the check
 def gen_limits(ctx, zb):
     L = zb.DEFAULT_ZIP_BOMB_LIMITS
@@ -806,7 +908,9 @@ def run(ctx):
         "G-dump: tools/props/c11.py prints DEFAULT_ZIP_BOMB_LIMITS of the imported module (floats via as_integer_ratio)",
         "model of CPython int/int (fdiv: round-half-even to 53 bits, clamp 2^-1074, overflow 2^1024): hand-written, "
         "validated on every run against CPython and against Coq's SpecFloat.SFdiv (vm_compute), not proved equal to either",
-        "oracles: zipfile's parsing of the central directory (infolist, is_dir, stream positions), recorded from the real library",
+        "oracles: zipfile's parsing of the central directory (infolist, stream positions), recorded from the real library; "
+        "'directory' is NOT an oracle: the model decides it from the entry name (ends with '/'), zipfile.ZipInfo.is_dir and "
+        "zip_bomb._is_directory are checked against that on every attribute combination",
         "hand-written model of validate_zipfile/validate_zip_bytesio/ZipContext tied by differential runs",
         "runtime monitor (wrappers around zipfile.ZipFile.__init__/open/close and zip_bomb.validate_zipfile) and the ast inventory",
         "openpyxl reads the same bytes that were validated: X-fact (both arguments are the expression io.BytesIO(raw))",
@@ -825,16 +929,36 @@ def run(ctx):
         _t[0] = now
 
     # ------------------------------------------------------------------ proofs
-    ctx.prove("C11/Props.v", ["C11/Proofs.vo"], expected=[
+    ctx.prove("C11/Props.v", ["C11/Proofs.vo", "C11/ProofsNames.vo"], expected=[
         "C11_rejects_iff", "C11_accepts_iff", "C11_never_overflows", "C11_ratio_exact", "C11_float_gt_sound", "C11_reject_sound_all_limits", "C11_dirs_ignored",
         "C11_count_counts_dirs", "C11_position_preserved", "C11_validate_dominates_reads",
-        "C11_read_implies_accepted", "C11_trace_ok_sound", "C11_rejects_iff_unrestricted_refuted",
+        "C11_read_implies_accepted", "C11_trace_ok_sound", "C11_attrs_irrelevant", "C11_file_member_never_ignored", "C11_rejects_iff_unrestricted_refuted",
         "C11_overflow_unrestricted_refuted"])
     ctx.prove("C11/Inst.v", ["Gen/C11Limits.vo", "C11/Corr.vo", "C11/Proofs.vo"], expected=[
         "C11_default_limits_exact", "C11_default_guard_exact"])
 
     lap("proofs")
     inventory(ctx)
+    directory_test(ctx, zb)
+    # attribute probes first (the report keeps only the first 12 findings): names decide, attributes do not
+    probe_results = attr_probe_cases(zb)
+    for name, L, es, attrs, clause, slash, k in probe_results:
+        got = impl_validate(zb, L, es, attrs)
+        ctx.case(("attr-probe", name, clause, slash, k), True, kind=f"attr-probe:{'dir' if slash else 'file'}")
+        want = 0 if slash else 1          # a name-directory is ignored, a file member breaking a clause is rejected
+        if got != want:
+            zi = zipinfos(es, attrs)[1]
+            if not slash:
+                ctx.finding(f"file-member-ignored:{clause}:{combo_name(k)}",
+                            f"validate_zipfile accepts a container whose FILE member {zi.filename!r} (create_system={zi.create_system}, "
+                            f"external_attr={zi.external_attr:#x}, file_size={zi.file_size}, compress_size={zi.compress_size}) breaks "
+                            f"the {clause} clause of limits {name}: zipfile inflates this member, the guard skipped it",
+                            {"limits": repr(L), "entries": es, "names": [z.filename for z in zipinfos(es, attrs)],
+                             "create_system": zi.create_system, "external_attr": zi.external_attr, "got": got})
+            else:
+                ctx.finding(f"dir-entry-checked:{clause}:{combo_name(k)}",
+                            f"validate_zipfile outcome {got} for a directory-named entry {zi.filename!r} with attributes {combo_name(k)}",
+                            {"limits": repr(L), "entries": es, "got": got})
     lap("inventory")
 
     # ------------------------------------------------------------------ (a) validate_zipfile on the lattice
@@ -908,6 +1032,22 @@ def run(ctx):
         ctx.extra["validate_disagreements"] = [info[i] for i in (failing + failing2)[:10]]
 
     lap("validate-coq")
+    # ------------------------------------------------------------------ (a') attribute probes: names decide, attributes do not
+    rcases, rinfo = [], []
+    for name, L, es, attrs, clause, slash, k in probe_results:
+        got = impl_validate(zb, L, es, attrs)
+        zis = zipinfos(es, attrs)
+        rcases.append(f"({limits_coq(L)}, [" + "; ".join(
+            f"mkR {common.coq_str(z.filename)} {zc(z.file_size)} {zc(z.compress_size)} {z.external_attr} {z.create_system}" for z in zis)
+            + f"], {got if got in (0, 1, 2) else 9})")
+        rinfo.append((name, clause, slash, combo_name(k), got))
+    prer = pre + "From S2T Require Import Lib.PyStr C11.ModelNames.\nOpen Scope Z_scope.\n"
+    okr, fr, logr = coq_eval_shards(ctx, "raw", prer, "corr_validate_raw", rcases, shard=200, ty="limits * list raw_entry * Z")
+    ctx.obligation("correspondence:model validate_raw (directory = name ends with '/') == validate_zipfile on forged-attribute entries",
+                   okr and not fr, (f"{len(fr)} disagreements, first: {rinfo[fr[0]] if fr else ''} " + logr)[:1000])
+    ctx.traces += len(rcases)
+    ctx.disagreements += len(fr)
+
     # ------------------------------------------------------------------ (b) int / int
     pairs = div_pairs(ctx, quotients)
     dcases = []
@@ -946,6 +1086,10 @@ def run(ctx):
         containers.append((f"tratio{d:+d}", forge(base, {0: (100, 10), 2: (100 + d, 10)})))
         containers.append((f"count{d:+d}", forge(base, {}, extra_dirs=max(0, d))))
     containers.append(("zero", forge(base, {2: (1, 0)})))
+    for k in (2, 5, 7):
+        containers.append((f"attr{k}-file-eratio+1", forge(base, {0: (20 * 9 + 1, 9), 2: (5, 5)}, attrs={0: k})))
+        containers.append((f"attr{k}-file-plain", forge(base, {}, attrs={0: k, 2: k})))
+        containers.append((f"attr0-dir-plain{k}", forge(base, {1: (999, 1)}, attrs={1: 0})))
     bcases, binfo = [], []
     for cname, data in containers:
         opens, es, p1, p2 = zip_entries(data)
@@ -1019,6 +1163,8 @@ def run(ctx):
         zconts = [("base", base), ("base2", base2), ("notzip", b"nope"), ("single+1", forge(base, {0: (S + 1, S // 400)})),
                   ("single+0", forge(base, {0: (S, S // 400)})), ("eratio+1", forge(base, {0: (500 * 9 + 1, 9)})),
                   ("eratio+0", forge(base, {0: (500 * 9, 9)})), ("zero", forge(base, {2: (1, 0)})),
+                  ("attr-dosdir-eratio+1", forge(base, {0: (500 * 9 + 1, 9)}, attrs={0: 2})),
+                  ("attr-all-dirbits-plain", forge(base, {}, attrs={0: 7, 2: 7})),
                   ("tratio+1", forge(base, {0: (2001, 10), 2: (2000, 10)})), ("tratio+0", forge(base, {0: (2000, 10), 2: (2000, 10)}))]
         opnames = ["read_bytes", "read_text", "read_xml_root", "open_stream", "exists", "namelist", "close"]
         for cname, data in zconts:
